@@ -629,7 +629,7 @@ def op_signature(fn):
     return ops
 
 
-def op_traces(fn, limit=64):
+def op_traces(fn, limit=64, expand=None, _depth=0):
     """the set of ordered stream-operation sequences a serializer function can perform, one per path
     (branches fork, an early return ends a path, a loop is one operation carrying the traces of its body),
     Write/Read prefixes removed. Two functions with the same set do the same things to the stream,
@@ -711,8 +711,39 @@ def op_traces(fn, limit=64):
         if k == "ReturnStmt":
             pre = expr_ops(n)
             return {pre + (RET,)}
+        if k == "DeclStmt":
+            # a local closure: its operations happen where it is called
+            keep = False
+            for d in inner:
+                if d.get("kind") == "VarDecl" and d.get("name"):
+                    lam = [y for y in walk(d) if y.get("kind") == "LambdaExpr"]
+                    if lam:
+                        lambdas[d.get("name")] = lam[0]
+                        continue
+                keep = True
+            if not keep:
+                return {()}
+        # a statement that is just a call of a local closure or of a helper without a twin: its traces, in place
+        x = n
+        while x.get("kind") in ("ExprWithCleanups", "ImplicitCastExpr", "ParenExpr") and x.get("inner"):
+            x = x["inner"][-1]
+        if x.get("kind") in ("CallExpr", "CXXOperatorCallExpr") and _depth < 3:
+            xin = [c for c in (x.get("inner") or []) if isinstance(c, dict)]
+            target = None
+            for ch in [y for f in xin[:2 if x.get("kind") == "CXXOperatorCallExpr" else 1] for y in walk(f)]:
+                if ch.get("kind") == "DeclRefExpr" and (ch.get("referencedDecl") or {}).get("name") in lambdas:
+                    target = lambdas[(ch.get("referencedDecl") or {}).get("name")]
+            if target is not None:
+                bodies = [c for c in (target.get("inner") or []) if isinstance(c, dict) and c.get("kind") == "CompoundStmt"]
+                if bodies:
+                    return {tuple(o for o in t if o != RET) for t in stmt(bodies[-1])}
+            nm = callee_name(x).split("::")[-1] if x.get("kind") == "CallExpr" else ""
+            if expand and nm in expand and body_of(expand[nm]) is not None:
+                sub = op_traces(expand[nm], limit, expand, _depth + 1)
+                return set(sub) if sub else {()}
         return {expr_ops(n)}
 
+    lambdas = {}
     b = body_of(fn)
     if b is None:
         return frozenset()
@@ -767,8 +798,14 @@ def rule_serializer_twins(out, tier):
         if len(ws) != len(rs):
             out.bad(rid, key + "/overloads", "%s:%d" % (rel, ws[0].get("_line", 0)), "%d overloads of %s but %d of %s" % (len(ws), name, len(rs), rname))
             continue
+        # helpers that are not themselves one half of a Write/Read pair are expanded where they are called
+        twinless = {}
+        for hn, hl in by.items():
+            other = ("Read" + hn[5:]) if hn.startswith("Write") else ("Write" + hn[4:]) if hn.startswith("Read") else None
+            if len(hl) == 1 and (other is None or other not in by) and hn not in ("WriteHeader", "ReadHeader"):
+                twinless[hn] = hl[0]
         for i, (w, r) in enumerate(zip(ws, rs)):
-            a, b = op_traces(w), op_traces(r)
+            a, b = op_traces(w, expand=twinless), op_traces(r, expand=twinless)
             table["%s#%d" % (suffix, i)] = {"write": fmt_traces(a), "read": fmt_traces(b)}
             k2 = key if len(ws) == 1 else "%s/overload%d" % (key, i + 1)
             p = "%s:%d" % (rel, r.get("_line", 0))
@@ -1026,6 +1063,7 @@ class CxxPaths:
         self.funcs = funcs  # name -> decl (free functions that may be expanded)
         self.limit = limit
         self.overflow = False
+        self.lambdas = {}  # local name -> LambdaExpr (closures defined in the function under analysis, expanded at their calls)
 
     def split(self, cond, val):
         k = cond.get("kind")
@@ -1078,6 +1116,14 @@ class CxxPaths:
             name = callee_name(x).split("::")[-1]
             if name in self.funcs:
                 return self.funcs[name], x
+        if x.get("kind") in ("CXXOperatorCallExpr", "CallExpr") and self.lambdas:
+            # `name(args)` on a local closure (a plain CallExpr on the variable inside a template)
+            first = [c for c in (x.get("inner") or []) if isinstance(c, dict)][:2 if x.get("kind") == "CXXOperatorCallExpr" else 1]
+            for ch in [y for f in first for y in walk(f)]:
+                if ch.get("kind") == "DeclRefExpr":
+                    nm = (ch.get("referencedDecl") or {}).get("name")
+                    if nm in self.lambdas:
+                        return self.lambdas[nm], x
         return None, None
 
     def block(self, stmts, start, depth):
@@ -1128,11 +1174,28 @@ class CxxPaths:
                 if d.get("kind") == "VarDecl":
                     init = [c for c in (d.get("inner") or []) if isinstance(c, dict) and c.get("kind") not in ("FullComment",)]
                     if init:
+                        lam = [y for y in walk(init[-1]) if y.get("kind") == "LambdaExpr"]
+                        if lam and d.get("name"):
+                            self.lambdas[d.get("name")] = lam[0]
+                            continue
                         q = q.ext(events=self.expr_events(init[-1], nl, depth, q), env={d.get("name", "?"): txt(init[-1])})
             return [q]
         # expression statement: expandable helper?
         fn, call = self.helper_call(n)
         if fn is not None and depth < 3:
+            if fn.get("kind") == "LambdaExpr":
+                # the closure's call operator carries the parameters and the body
+                ops = [y for y in walk(fn) if y.get("kind") == "CXXMethodDecl" and y.get("name") == "operator()"]
+                lam_params = [c.get("name") for c in params_of(ops[0])] if ops else []
+                bodies = [c for c in (fn.get("inner") or []) if isinstance(c, dict) and c.get("kind") == "CompoundStmt"]
+                if not bodies:
+                    return [p.ext(events=self.expr_events(n, nl, depth, p))]
+                args = [txt(a) for a in (call.get("inner") or [])[(2 if call.get("kind") == "CXXOperatorCallExpr" else 1):]]
+                env = {prm: a for prm, a in zip(lam_params, args) if prm and prm != a}
+                res = []
+                for q in self.block([c for c in (bodies[-1].get("inner") or []) if isinstance(c, dict)], p.ext(env=env), depth + 1):
+                    res.append(CxxPath(q.lits, q.events, "fall" if q.outcome in ("fall", "return") else q.outcome, q.env, p.ret))
+                return res
             params = [c.get("name") for c in params_of(fn)]
             args = [txt(a) for a in (call.get("inner") or [])[1:]]
             env = {}
@@ -1259,7 +1322,11 @@ def rule_blocks(out, tier):
     # ReadBlock on its paths (helpers that are not serializer routines expanded in place)
     helpers = {k: v for k, v in fns.items() if not re.match(r"^(Write|Read)(Integer|FloatingPoint|String|Date|Time|DateTime|Optional|Vector|Array|DynamicNDArray|NDArray|FixedNDArray|Map|Monostate|Enum|Flags|Block|BlocksIntoVector|TriviallySerializable)$", k)}
     cp = CxxPaths(helpers)
+    # the block counter is the `size_t&` parameter of ReadBlock, whatever it is called
     var = "current_block_remaining"
+    for q in params_of(rb):
+        if ((q.get("type") or {}).get("qualType", "")).replace(" ", "") in ("size_t&", "std::size_t&", "unsignedlong&") and q.get("name"):
+            var = q.get("name")
     paths = cp.paths(rb)
     pos_rb = "%s:%d" % (rel, rb.get("_line", 0))
     if cp.overflow or not paths:
@@ -1290,17 +1357,21 @@ def rule_blocks(out, tier):
                 ok_dec = False
     # some path must exist on which a zero count is recognised
     sees_zero = any(p.outcome == "return" and ret_bool(p) is False for p in paths)
-    out.check(ok_refill and n_refill > 0, rid, "ReadBlock/refill only when empty", pos_rb, "a new block count is read only when current_block_remaining == 0", "ReadBlock does not refill the block count under `current_block_remaining == 0`")
+    out.check(ok_refill and n_refill > 0, rid, "ReadBlock/refill only when empty", pos_rb, "a new block count is read only when the count is 0", "ReadBlock does not refill the block count under `%s == 0`" % var)
     out.check(ok_end and sees_zero, rid, "ReadBlock/zero count ends the stream", pos_rb, "a block count of 0 returns false", "a zero block count is not treated as the end of the stream")
-    out.check(ok_dec, rid, "ReadBlock/decrement by one", pos_rb, "one item per call", "current_block_remaining is not decremented by exactly one per item read")
+    out.check(ok_dec, rid, "ReadBlock/decrement by one", pos_rb, "one item per call", "the block count is not decremented by exactly one per item read")
     # The generated callers treat `current_block_remaining == 0` after a batch read as the end of the stream. So every
     # routine that consumes items of a block must never return with the count at zero unless the zero was READ from the
     # stream: after the last decrement on a path there is either a refill (ReadInteger into the count) or the path knows
     # the count is still positive.
     for fname, fn in sorted(fns.items()):
         ps = params_of(fn)
-        if not any((q.get("name") == var) for q in ps) or not fname.startswith("Read"):
+        if not fname.startswith("Read"):
             continue
+        cnt = [q.get("name") for q in ps if ((q.get("type") or {}).get("qualType", "")).replace(" ", "") in ("size_t&", "std::size_t&", "unsignedlong&") and q.get("name")]
+        if len(cnt) != 1:
+            continue
+        var = cnt[0]
         if not ((fn.get("type") or {}).get("qualType", "")).startswith("void"):
             continue  # a routine that reports the end of the stream through its result is judged on that (above)
         cp2 = CxxPaths(helpers)
